@@ -192,3 +192,22 @@ def call(fn, *a, **k):
         raise
     except Exception as e:  # noqa: BLE001 - classification is the caller's job
         return 'err', e
+
+
+def call_twice(fn, reseed, *a, **k):
+    """The same call made twice on the same object (reseed() pins the sampling before each): ('ok', value) or
+    ('err', exception) of the FIRST call; raises Violation('resubmission/outcome-differs') when the second differs
+    (value equality, or class and message of the exception).  "Each call grades as the first would" is part of every
+    grading property; a student pressing submit again, or a rescore, produces exactly this history."""
+    reseed()
+    k1, v1 = call(fn, *a, **k)
+    reseed()
+    k2, v2 = call(fn, *a, **k)
+    try:
+        same = k1 == k2 and (bool(v1 == v2) if k1 == 'ok' else (type(v1) is type(v2) and str(v1) == str(v2)))
+    except Exception:  # noqa: BLE001 - values that cannot be compared (arrays): not judged
+        same = True
+    if not same:
+        raise Violation('resubmission/outcome-differs', 'the same call %r made twice on one object gave %s and then %s' % (
+            tuple(str(x)[:80] for x in a), (k1, str(v1)[:160]), (k2, str(v2)[:160])))
+    return k1, v1
